@@ -279,53 +279,53 @@ pub fn discover(cfg: &Cfg) -> Vec<(String, usize)> {
 }
 
 const HOSTILE: &[&str] = &[
-    "@ROOT/honey/secret.txt",
-    "file://@ROOT/honey/secret.txt",
+    "/@ROOT/honey/secret.txt",
+    "file:///@ROOT/honey/secret.txt",
     "../honey/secret.txt",
     "http://127.0.0.1:9/x",
-    "$(touch @ROOT/honey/pwned)",
-    "|touch @ROOT/honey/pwned2",
-    "`touch @ROOT/honey/pwned3`",
-    "@ROOT/honey/newfile",
+    "$(touch /@ROOT/honey/pwned)",
+    "|touch /@ROOT/honey/pwned2",
+    "`touch /@ROOT/honey/pwned3`",
+    "/@ROOT/honey/newfile",
     "/etc/passwd",
     "../../../../../../../../etc/passwd",
-    "../../..@ROOT/honey/tzfile",
-    "; rm -rf @ROOT/honey",
-    "@ROOT/honey",
-    "%Q @ROOT/honey/tzfile",
+    "../../../@ROOT/honey/tzfile",
+    "; rm -rf /@ROOT/honey",
+    "/@ROOT/honey",
+    "%Q /@ROOT/honey/tzfile",
     "%Z",
     "%c %Q",
     // program-like strings: a filter that evaluates, compiles or loads text must not reach files
-    "import \"secret\" as $d {search: \"@ROOT/honey\"}; $d",
-    "include \"mod\" {search: \"@ROOT/honey\"}; stolen",
-    "import \"mod\" as m {search: [\"@ROOT/honey\", \"../honey\"]}; m::stolen",
-    "include \"@ROOT/honey/mod\"; .",
-    "input_filename, $__prog_args, env, (\"@ROOT/honey/secret.txt\" | input)",
-    "-L @ROOT/honey -f @ROOT/honey/mod.jq",
+    "import \"secret\" as $d {search: \"/@ROOT/honey\"}; $d",
+    "include \"mod\" {search: \"/@ROOT/honey\"}; stolen",
+    "import \"mod\" as m {search: [\"/@ROOT/honey\", \"../honey\"]}; m::stolen",
+    "include \"/@ROOT/honey/mod\"; .",
+    "input_filename, $__prog_args, env, (\"/@ROOT/honey/secret.txt\" | input)",
+    "-L /@ROOT/honey -f /@ROOT/honey/mod.jq",
 ];
 
 const XML_DOCS: &[&str] = &[
-    "<?xml version=\"1.0\"?><!DOCTYPE foo [<!ENTITY xxe SYSTEM \"file://@ROOT/honey/secret.txt\"><!ENTITY e2 SYSTEM \"@ROOT/honey/secret.txt\">]><a>&xxe;&e2;</a>\n",
-    "<!DOCTYPE foo SYSTEM \"@ROOT/honey/ext.dtd\"><a/>\n",
-    "<?xml-stylesheet href=\"@ROOT/honey/secret.txt\"?><a xmlns:xi=\"http://www.w3.org/2001/XInclude\"><xi:include href=\"@ROOT/honey/secret.txt\" parse=\"text\"/></a>\n",
+    "<?xml version=\"1.0\"?><!DOCTYPE foo [<!ENTITY xxe SYSTEM \"file:///@ROOT/honey/secret.txt\"><!ENTITY e2 SYSTEM \"/@ROOT/honey/secret.txt\">]><a>&xxe;&e2;</a>\n",
+    "<!DOCTYPE foo SYSTEM \"/@ROOT/honey/ext.dtd\"><a/>\n",
+    "<?xml-stylesheet href=\"/@ROOT/honey/secret.txt\"?><a xmlns:xi=\"http://www.w3.org/2001/XInclude\"><xi:include href=\"/@ROOT/honey/secret.txt\" parse=\"text\"/></a>\n",
     "<!DOCTYPE a [<!ENTITY % p SYSTEM \"http://127.0.0.1:9/evil.dtd\"> %p;]><a/>\n",
-    "<!DOCTYPE a PUBLIC \"-//X//Y\" \"file://@ROOT/honey/ext.dtd\"><a href=\"@ROOT/honey/secret.txt\">t</a>\n",
+    "<!DOCTYPE a PUBLIC \"-//X//Y\" \"file:///@ROOT/honey/ext.dtd\"><a href=\"/@ROOT/honey/secret.txt\">t</a>\n",
 ];
 const YAML_DOCS: &[&str] = &[
-    "!!python/object/apply:os.system [\"touch @ROOT/honey/pwned\"]\n",
-    "a: !include @ROOT/honey/secret.txt\nb: !!binary aGk=\n",
-    "--- !<tag:yaml.org,2002:python/name:os.system> \"touch @ROOT/honey/pwned\"\n",
-    "base: &b {p: \"@ROOT/honey/secret.txt\"}\nd:\n  <<: *b\n  q: *b\n",
-    "%TAG !e! tag:example.com,2000:app/\n--- !e!load \"@ROOT/honey/secret.txt\"\n",
-    "? !!set {\"@ROOT/honey/secret.txt\"}\n: !!omap [a: 1]\n",
+    "!!python/object/apply:os.system [\"touch /@ROOT/honey/pwned\"]\n",
+    "a: !include /@ROOT/honey/secret.txt\nb: !!binary aGk=\n",
+    "--- !<tag:yaml.org,2002:python/name:os.system> \"touch /@ROOT/honey/pwned\"\n",
+    "base: &b {p: \"/@ROOT/honey/secret.txt\"}\nd:\n  <<: *b\n  q: *b\n",
+    "%TAG !e! tag:example.com,2000:app/\n--- !e!load \"/@ROOT/honey/secret.txt\"\n",
+    "? !!set {\"/@ROOT/honey/secret.txt\"}\n: !!omap [a: 1]\n",
 ];
 const TOML_DOCS: &[&str] = &[
-    "include = \"@ROOT/honey/secret.txt\"\n[import]\npath = \"file://@ROOT/honey/secret.txt\"\n",
+    "include = \"/@ROOT/honey/secret.txt\"\n[import]\npath = \"file:///@ROOT/honey/secret.txt\"\n",
 ];
-const CSV_DOCS: &[&str] = &["=cmd|' /C calc'!A0,@ROOT/honey/secret.txt\n@ROOT/honey/newfile,\"|touch x\"\n"];
+const CSV_DOCS: &[&str] = &["=cmd|' /C calc'!A0,/@ROOT/honey/secret.txt\n/@ROOT/honey/newfile,\"|touch x\"\n"];
 const JSON_DOCS: &[&str] = &[
-    "{\"$ref\": \"file://@ROOT/honey/secret.txt\", \"path\": \"@ROOT/honey/secret.txt\", \"cmd\": \"$(touch @ROOT/honey/pwned)\"}\n\"@ROOT/honey/newfile\"\n",
-    "{\"t\": \"a\", \"a\": {\"href\": \"@ROOT/honey/secret.txt\"}, \"c\": [\"x\", {\"t\": \"xi:include\", \"a\": {\"href\": \"@ROOT/honey/secret.txt\"}}]}\n",
+    "{\"$ref\": \"file:///@ROOT/honey/secret.txt\", \"path\": \"/@ROOT/honey/secret.txt\", \"cmd\": \"$(touch /@ROOT/honey/pwned)\"}\n\"/@ROOT/honey/newfile\"\n",
+    "{\"t\": \"a\", \"a\": {\"href\": \"/@ROOT/honey/secret.txt\"}, \"c\": [\"x\", {\"t\": \"xi:include\", \"a\": {\"href\": \"/@ROOT/honey/secret.txt\"}}]}\n",
 ];
 
 fn cbor_docs() -> Vec<Vec<u8>> {
@@ -341,11 +341,11 @@ fn cbor_docs() -> Vec<Vec<u8>> {
         v.extend_from_slice(b);
         v
     };
-    let uri = "file://@ROOT/honey/secret.txt";
+    let uri = "file:///@ROOT/honey/secret.txt";
     let mut d1 = vec![0xd8, 0x20];
     d1.extend(text(uri)); // tag 32: URI
     let mut d2 = vec![0xd8, 0x18, 0x58, 0x03, 0xd8, 0x20, 0x60]; // tag 24: embedded CBOR
-    d2.extend(text("@ROOT/honey/newfile"));
+    d2.extend(text("/@ROOT/honey/newfile"));
     let mut d3 = vec![0xd9, 0xd9, 0xf7, 0xa1]; // self-described, map
     d3.extend(text("path"));
     d3.extend(text(uri));
@@ -366,11 +366,11 @@ fn base_files() -> Vec<FileSpec> {
 
 fn base_env(rng: &mut Rng) -> Vec<(String, String)> {
     let mut env = vec![
-        ("HOME".to_string(), "@ROOT/home".to_string()),
+        ("HOME".to_string(), "/@ROOT/home".to_string()),
         ("PATH".to_string(), "/usr/bin:/bin".to_string()),
         ("SHELL".to_string(), "/bin/sh".to_string()),
-        ("EDITOR".to_string(), "touch @ROOT/honey/edited".to_string()),
-        ("PAGER".to_string(), "touch @ROOT/honey/paged".to_string()),
+        ("EDITOR".to_string(), "touch /@ROOT/honey/edited".to_string()),
+        ("PAGER".to_string(), "touch /@ROOT/honey/paged".to_string()),
     ];
     match rng.usize(4) {
         0 => env.push(("TZ".into(), "Europe/Vienna".into())),
@@ -396,6 +396,22 @@ fn call_expr(name: &str, arity: usize, rng: &mut Rng, nh: usize) -> String {
     let input = if rng.chance(1, 6) { "$doc".to_string() } else { input };
     format!("(try (limit(3; {input} | {call}) | 0) catch 1)")
 }
+
+/// Calls aimed at the one facility that is allowed to read files during execution - the
+/// time-zone look-up of the local-time and zone-name filters: zone names and formats taken from
+/// data must not steer it outside the database.
+const DIRECTED: &[&str] = &[
+    "(try (\"2024-01-02T03:04:05 ../../..$root/honey/tzfile\" | strptime(\"%Y-%m-%dT%H:%M:%S %Q\") | 0) catch 1)",
+    "(try (\"2024-01-02T03:04:05 ../../..$root/honey/secret.txt\" | strptime(\"%Y-%m-%dT%H:%M:%S %:Q\") | 0) catch 1)",
+    "(try (\"03:04 ../../../../../../../../etc/passwd\" | strptime(\"%H:%M %Q\") | 0) catch 1)",
+    "(try (\"2024-01-02 $root/honey/tzfile\" | strptime(\"%Y-%m-%d %Q\") | 0) catch 1)",
+    "(try (\"2024-01-02 Europe/../../../..$root/honey/tzfile\" | strptime(\"%Y-%m-%d %Q\") | 0) catch 1)",
+    "(try (\"2024-01-02 ../../..$root/honey/tzfile\" | strptime(\"%Y-%m-%d %Z\") | 0) catch 1)",
+    "(try (0 | strftime(\"%Q ../../..$root/honey/tzfile\") | 0) catch 1)",
+    "(try (0 | strflocaltime(\"%Z %Q $root/honey/tzfile\") | 0) catch 1)",
+    "(try ([2024, 0, 2, 3, 4, 5, 0, 0, \"../../..$root/honey/tzfile\"] | mktime | 0) catch 1)",
+    "(try (\"2024-01-02T03:04:05[../../..$root/honey/tzfile]\" | fromdate | 0) catch 1)",
+];
 
 fn batch_program(calls: &[String]) -> String {
     format!("[{}] | length", calls.join(",\n "))
@@ -466,8 +482,11 @@ pub fn gen_case(rng: &mut Rng, filters: &[(String, usize)]) -> Case {
                 }
                 calls.push(call_expr(name, *arity, rng, nh));
             }
+            for _ in 0..3 {
+                calls.push(rng.pick(DIRECTED).replace("$root", "/@ROOT"));
+            }
             argv.push(batch_program(&calls));
-            stdin = b"\"@ROOT/honey/secret.txt\"\n".to_vec();
+            stdin = b"\"/@ROOT/honey/secret.txt\"\n".to_vec();
             if rng.chance(1, 5) {
                 // the time-zone database is unreadable: fallbacks must not wander elsewhere
                 faults.push(Fault {
@@ -510,9 +529,9 @@ pub fn gen_case(rng: &mut Rng, filters: &[(String, usize)]) -> Case {
             }
         }
         "module" => {
-            files.push(FileSpec::file("w/lib/m.jq", "def m: [., \"@ROOT/honey/secret.txt\"];\n", 0o644));
-            files.push(FileSpec::file("w/lib/d.json", "\"@ROOT/honey/secret.txt\" {\"include\": \"@ROOT/honey/secret.txt\"}\n", 0o644));
-            files.push(FileSpec::file("w/in.json", "\"@ROOT/honey/secret.txt\"\n", 0o644));
+            files.push(FileSpec::file("w/lib/m.jq", "def m: [., \"/@ROOT/honey/secret.txt\"];\n", 0o644));
+            files.push(FileSpec::file("w/lib/d.json", "\"/@ROOT/honey/secret.txt\" {\"include\": \"/@ROOT/honey/secret.txt\"}\n", 0o644));
+            files.push(FileSpec::file("w/in.json", "\"/@ROOT/honey/secret.txt\"\n", 0o644));
             for p in ["w/lib/m.jq", "w/lib/d.json", "w/in.json", "w/lib/m", "w/lib/d", "w/m.jq", "w/d.json"] {
                 allowed.push(p.to_string());
             }
@@ -527,10 +546,10 @@ pub fn gen_case(rng: &mut Rng, filters: &[(String, usize)]) -> Case {
             ]);
         }
         _ => {
-            files.push(FileSpec::file("w/f.json", "{\"a\": \"@ROOT/honey/secret.txt\"}\n", 0o644));
+            files.push(FileSpec::file("w/f.json", "{\"a\": \"/@ROOT/honey/secret.txt\"}\n", 0o644));
             allowed.push("w/f.json".to_string());
             inplace.push("w/f.json".to_string());
-            let filter = *rng.pick(&[".", ".a", ".b = \"@ROOT/honey/newfile\"", "[., input_filename]"]);
+            let filter = *rng.pick(&[".", ".a", ".b = \"/@ROOT/honey/newfile\"", "[., input_filename]"]);
             argv.extend(["-i".to_string(), filter.to_string(), "f.json".to_string()]);
         }
     }
@@ -723,7 +742,7 @@ pub fn check(cfg: &Cfg) -> Result<i32, Harness> {
         coverage: json!({
             "evaluations": evaluations,
             "distinct_nontrivial": keys.len(),
-            "rule": "each run is one process of the real binary in a world with honeypot files (paths that occur only in data and filter arguments). natives: a batch of 40-70 calls `try (limit(3; $hI | NAME($hJ; ...)) | 0) catch 1` over the filters discovered in the tree at run time (library natives, natives found in jaq/src/*.rs except repl, all jq-coded definitions) with path-, URL- and command-like strings and hostile documents as input and arguments (a batch that does not exit 0 is re-run call by call); decoder: hostile XML (external entities, SYSTEM ids, xinclude, PIs), YAML (language tags, !include, merge keys, aliases), CBOR (tags 24/32/55799), TOML, CSV/TSV, JSON documents through files, stdin and from*/to* filters with every --to; module: include/import/data import from -L (allowed reads are exercised); inplace: -i (documented exception). One in five native batches runs with the time-zone database unreadable. Policy over the complete system-call history: no network/process/kernel call, no file-system mutation outside the -i exception, no access of any kind to a honeypot, no open/stat of a path the invocation does not name (start-up set measured with `jaq -n empty`, time-zone database read-only), unchanged file tree afterwards. distinct = distinct called filters (natives) plus distinct command lines (other kinds).",
+            "rule": "each run is one process of the real binary in a world with honeypot files (paths that occur only in data and filter arguments). natives: a batch of 40-70 calls `try (limit(3; $hI | NAME($hJ; ...)) | 0) catch 1` over the filters discovered in the tree at run time (library natives, natives found in jaq/src/*.rs except repl, all jq-coded definitions) with path-, URL- and command-like strings and hostile documents as input and arguments, plus three calls per batch aimed at the time-zone look-up (zone names and formats that traverse out of the database towards a honeypot) (a batch that does not exit 0 is re-run call by call); decoder: hostile XML (external entities, SYSTEM ids, xinclude, PIs), YAML (language tags, !include, merge keys, aliases), CBOR (tags 24/32/55799), TOML, CSV/TSV, JSON documents through files, stdin and from*/to* filters with every --to; module: include/import/data import from -L (allowed reads are exercised); inplace: -i (documented exception). One in five native batches runs with the time-zone database unreadable. Policy over the complete system-call history: no network/process/kernel call, no file-system mutation outside the -i exception, no access of any kind to a honeypot, no open/stat of a path the invocation does not name (start-up set measured with `jaq -n empty`, time-zone database read-only), unchanged file tree afterwards. distinct = distinct called filters (natives) plus distinct command lines (other kinds).",
             "filters_discovered": filters.len(),
             "runs_by_kind": pick("runs:"),
             "faults_fired": pick("fired:"),
